@@ -643,6 +643,7 @@ def backoff_iter(start, stop, count=None, factor=2.0, jitter=False):
         raise ValueError('expected stop >= 0')
     if stop < start:
         raise ValueError('expected stop >= start, not %r' % stop)
+    default_count = count is None
     if count is None:
         denom = start if start else 1
         count = 1 + max(0, math.ceil(math.log(stop/denom, factor)))
@@ -654,20 +655,25 @@ def backoff_iter(start, stop, count=None, factor=2.0, jitter=False):
         if not (-1.0 <= jitter <= 1.0):
             raise ValueError('expected jitter -1 <= j <= 1, not: %r' % jitter)
 
-    cur, i = start, 0
-    while count == 'repeat' or i < count:
+    cur, i, short = start, 0, False
+    while count == 'repeat' or i < count or short:
         if not jitter:
             cur_ret = cur
         elif jitter:
             cur_ret = cur - (cur * jitter * random.random())
         yield cur_ret
         i += 1
+        prev = cur
         if cur == 0:
             cur = 1
         elif cur < stop:
             cur *= factor
         if cur > stop:
             cur = stop
+        # the default count comes from a logarithm, which rounds down
+        # when stop is a hair above start * factor**n: keep going
+        # until stop itself has been yielded
+        short = default_count and prev < cur
     return
 
 
